@@ -241,6 +241,10 @@ class Renderer:
                 return self._bool("some:" + self.path(base), c, True)
             if pat == "None" or pat.endswith("::None"):
                 return self._bool("some:" + self.path(base), c, False)
+            vname = pat.rsplit("::", 1)[-1].split("(")[0].split("{")[0].strip()
+            if vname in ("String", "Other") and ("RustFieldType" in pat or "rust_type" in og.nf_str(base)):
+                # a test of the kind of a field type: the same decision as is_string() / is_other()
+                return self.d.kind(self.path(base)) == ("string" if vname == "String" else "other")
             # enum variant patterns: decided by the chosen variant of the value
             return None
         if c[0] == "call":
